@@ -322,7 +322,7 @@ pub fn execution_scenario(batch: usize, seed: u64) -> ScenarioResult {
 
 pub fn run(ctx: &Ctx) -> i32 {
     let tier = ctx.tier;
-    let n_exec = tier.pick(1, 8);
+    let n_exec = tier.pick(1, 24);
     let n_gen = tier.pick(40, 1_000);
     let cfg = RunCfg {
         property: "C17",
@@ -354,7 +354,7 @@ pub fn run(ctx: &Ctx) -> i32 {
         tier,
         seed: ctx.seed,
         level: "exploration",
-        rule: "programs = seeded service definitions (12 names incl. prefixes of one another and mixed casing, packages empty to 4 levels, 1-8 methods, route name equal to or different from the method name, Json or Bincode codec, raw-bytes option). generator level: 2k (thorough 50k) definitions through anemo_build::{client,server}::generate; the method->route map read off the client AST must equal the one read off the server's match arms (arm -> <X>Svc -> trait method), every route = '/' + SERVICE_NAME + '/' + route name, routes distinct. execution level: 1 (thorough 8) batches of 12 generated services are compiled by /verif/harness-codegen (build.rs runs anemo_build::manual::Builder) and every client method is called through Router::add_rpc_service with 8 scripted outcomes (Ok, Err(Status) of 7 codes with message+headers, response headers, raw-bytes garbage/truncated/trailing payloads); the handler log must show exactly one invocation of the same-named method with the sent message, results must match the script, undecodable payloads must surface as Err(Status), unknown methods/services get NotFound; no panic".into(),
+        rule: "programs = seeded service definitions (12 names incl. prefixes of one another and mixed casing, packages empty to 4 levels, 1-8 methods, route name equal to or different from the method name, Json or Bincode codec, raw-bytes option). generator level: 2k (thorough 50k) definitions through anemo_build::{client,server}::generate; the method->route map read off the client AST must equal the one read off the server's match arms (arm -> <X>Svc -> trait method), every route = '/' + SERVICE_NAME + '/' + route name, routes distinct. execution level: 1 (thorough 24) batches of 12 generated services are compiled by /verif/harness-codegen (build.rs runs anemo_build::manual::Builder) and every client method is called through Router::add_rpc_service with 12 scripted outcomes (Ok, Err(Status) of 7 codes in every shape - code only, message only, headers only, both -, response headers, raw-bytes garbage/truncated/trailing payloads, a request and a typed response that cannot be encoded, each followed by an ordinary call); the handler log must show exactly one invocation of the same-named method with the sent message, results must match the script, undecodable payloads must surface as Err(Status), unknown methods/services get NotFound; no panic".into(),
         assumptions: vec!["only definitions that produce compilable Rust are explored (identifier-shaped names); Attributes are not varied".into()],
         summary,
         extra: Default::default(),
